@@ -207,6 +207,11 @@ impl<'g> Cx<'g> {
     }
 
     pub fn declare(&mut self, name: &str, ty: Ty) {
+        // a declaration shadows an alias of the same name in the same scope (`let (buf, tag) = b.split_at_mut(n);
+        // let tag = Tag::from_slice(tag);`); an alias is installed AFTER the declaration of its name
+        if let Some(al) = self.aliases.last_mut() {
+            al.retain(|(n, _)| n != name);
+        }
         self.scopes.last_mut().unwrap().push((name.to_string(), ty));
     }
 
@@ -1545,6 +1550,55 @@ impl<'g> Cx<'g> {
                         return Ok(());
                     }
                 }
+            }
+        }
+        // `let (a, b) = place.split_at_mut(mid);` : `a` / `b` are aliases of the sub-slices `place[..mid]` / `place[mid..]`
+        // (every use re-reads / writes `place`; `split_at_mut` panics when `mid > len`)
+        if let (syn::Pat::Tuple(tp), syn::Expr::MethodCall(sm)) = (pat, &**init) {
+            if sm.method == "split_at_mut" && sm.args.len() == 1 && tp.elems.len() == 2 {
+                let mut names: Vec<Option<String>> = Vec::new();
+                for el in &tp.elems {
+                    match el {
+                        syn::Pat::Ident(pi) if pi.subpat.is_none() && pi.by_ref.is_none() => {
+                            let n = pi.ident.to_string();
+                            self.check_local_name(&n, pi.span())?;
+                            names.push(Some(n));
+                        }
+                        syn::Pat::Wild(_) => names.push(None),
+                        other => return self.bail(other.span(), "`let (a, b) = place.split_at_mut(mid)` needs plain variables"),
+                    }
+                }
+                let mut recv: &syn::Expr = &sm.receiver;
+                while let syn::Expr::Paren(p) = recv {
+                    recv = &p.expr;
+                }
+                if !self.is_place(recv) {
+                    return self.bail(recv.span(), "`split_at_mut` on a value that is not a place");
+                }
+                let base = self.place(recv, stmts)?;
+                let elem = match base.ty() {
+                    Ty::List(e, _) => e,
+                    _ => return self.bail(recv.span(), "`split_at_mut` on a value that is not an array / Vec / slice"),
+                };
+                let (mid, mt) = self.expr(&sm.args[0], Some(&Ty::usize()), stmts)?;
+                if !mt.is_int() {
+                    return self.bail(sm.args[0].span(), "the argument of `split_at_mut` is not an integer");
+                }
+                let mv = self.fresh();
+                stmts.push(Stmt::Let(mv.clone(), mid));
+                let site = self.site(&**init);
+                let sty = Ty::List(elem, ListKind::Slice);
+                let left = Place::Range(Box::new(base.clone()), "0".to_string(), Some(mv.clone()), sty.clone(), site.clone());
+                let right = Place::Range(Box::new(base), mv, None, sty.clone(), site);
+                // the call itself checks `mid <= len` (once)
+                let _ = self.read(&left, stmts)?;
+                for (n, pl) in names.into_iter().zip([left, right]) {
+                    if let Some(n) = n {
+                        self.declare(&n, sty.clone());
+                        self.aliases.last_mut().unwrap().push((n, pl));
+                    }
+                }
+                return Ok(());
             }
         }
         // `let x = &mut <temporary>;` : the variable owns the temporary (`let x = &mut Cursor::new(src);`)
